@@ -361,8 +361,16 @@ def run_property(pid, tier="quick", seed=0):
         for h, info in zip(hs, infos):
             if info["status"] == "fail" or (info["status"] == "unwind" and h["kind"] == "termination"):
                 logp2 = os.path.join(scratch, h["name"] + ".playback.log")
-                rc2, out2, to2, _ = run_limited(kani_cmd(h, info["_tdir"], ["-Z", "concrete-playback", "--concrete-playback=print"]),
-                                                os.path.join(scratch, "crate-" + h["mode"]), cap, logp2, mem_gb=PLAYBACK_MEM_GB)
+                extra = ["-Z", "concrete-playback", "--concrete-playback=print", "--no-assertion-reach-checks"]
+                mem_related = any(("dereference" in c["desc"] or "pointer" in c["desc"] or "memory" in c["desc"])
+                                  for c in info["failed_checks"])
+                if not mem_related:
+                    # the trace is only needed for the failed assertion / overflow / panic: without the ~2000 pointer checks of a
+                    # typical harness the playback run is one or two solver calls instead of one per check
+                    extra += ["--no-memory-safety-checks", "--no-undefined-function-checks"]
+                pcmd = [c for c in kani_cmd(h, info["_tdir"], extra) if c != "--verbose" or h.get("verbose") != "off"]
+                rc2, out2, to2, _ = run_limited(pcmd, os.path.join(scratch, "crate-" + h["mode"]), max(cap, 1200), logp2,
+                                                mem_gb=PLAYBACK_MEM_GB)
                 info["counterexamples"] = parse_playback(out2)
                 if not info["counterexamples"]:
                     info["notes"].append("concrete playback produced no values" + (" (out of memory)" if "out of memory" in out2.lower() else ""))
